@@ -321,7 +321,7 @@ class VQESolver:
 
         return energy
 
-    def operator_expectation(self, operator, var_params=None, n_active_mos=None, n_active_electrons=None, n_active_sos=None, spin=None, ref_state=Circuit()):
+    def operator_expectation(self, operator, var_params=None, n_active_mos=None, n_active_electrons=None, n_active_sos=None, spin=None, ref_state=None):
         """Obtains the operator expectation value of a given operator.
 
            Args:
@@ -344,7 +344,7 @@ class VQESolver:
                     mapping used is scbk and vqe_solver was initiated using a
                     QubitHamiltonian.
                 spin (int): Spin (n_alpha - n_beta)
-                ref_state (Circuit): A reference state preparation circuit
+                ref_state (Circuit): A reference state preparation circuit. Default: the solver's reference circuit
 
            Returns:
                 float: operator expectation value computed by VQE using the
@@ -393,6 +393,10 @@ class VQESolver:
                                                       up_then_down=self.up_then_down,
                                                       spin=spin)
 
+        # By default, the state is the one the energy refers to: reference-state override followed by the ansatz
+        if ref_state is None:
+            ref_state = self.reference_circuit
+
         self.ansatz.update_var_params(var_params)
         circuit = ref_state + self.ansatz.circuit
         if self.projective_circuit:
@@ -401,7 +405,7 @@ class VQESolver:
 
         return expectation
 
-    def get_rdm(self, var_params, resample=False, sum_spin=True, ref_state=Circuit()):
+    def get_rdm(self, var_params, resample=False, sum_spin=True, ref_state=None):
         """Compute the 1- and 2- RDM matrices using the VQE energy evaluation.
         This method allows to combine the DMET problem decomposition technique
         with the VQE as an electronic structure solver. The RDMs are computed by
@@ -419,7 +423,7 @@ class VQESolver:
                 qubit terms' frequencies must be set to self.rdm_freq_dict
             sum_spin (bool): If True, the spin-summed 1-RDM and 2-RDM will be
                 returned. If False, the full 1-RDM and 2-RDM will be returned.
-            ref_state (Circuit): A reference state preparation circuit.
+            ref_state (Circuit): A reference state preparation circuit. Default: the solver's reference circuit.
 
         Returns:
             (numpy.array, numpy.array): One & two-particle spin summed RDMs if
@@ -446,6 +450,9 @@ class VQESolver:
             qb_freq_dict, qb_expect_dict = dict(), dict()
 
         # Build state preparation circuit. If noiseless, simulate and save the statevector
+        # By default, the reference is the solver's own reference-state override
+        if ref_state is None:
+            ref_state = self.reference_circuit
         prep_circuit = ref_state + self.ansatz.circuit
         if self.backend_options.get("noise_model") is None:
             _, sv = self.backend.simulate(prep_circuit, return_statevector=True)
@@ -535,7 +542,7 @@ class VQESolver:
 
         return rdm1_spin, rdm2_spin
 
-    def get_rdm_uhf(self, var_params, resample=False, ref_state=Circuit()):
+    def get_rdm_uhf(self, var_params, resample=False, ref_state=None):
         """Compute the 1- and 2- RDM matrices using the VQE energy evaluation.
         This method allows to combine the DMET problem decomposition technique
         with the VQE as an electronic structure solver. The RDMs are computed by
@@ -551,7 +558,7 @@ class VQESolver:
             resample (bool): Whether to resample saved frequencies. get_rdm with
                 savefrequencies=True must be called or a dictionary for each
                 qubit terms' frequencies must be set to self.rdm_freq_dict
-            ref_state (Circuit): A reference state preparation circuit.
+            ref_state (Circuit): A reference state preparation circuit. Default: the solver's reference circuit.
 
         Returns: TODO
             (numpy.array, numpy.array): One & two-particle spin summed RDMs if
@@ -580,6 +587,9 @@ class VQESolver:
             qb_freq_dict, qb_expect_dict = dict(), dict()
 
         # Build state preparation circuit. If noiseless, simulate and save the statevector
+        # By default, the reference is the solver's own reference-state override
+        if ref_state is None:
+            ref_state = self.reference_circuit
         prep_circuit = ref_state + self.ansatz.circuit
         if self.backend_options.get("noise_model") is None:
             _, sv = self.backend.simulate(prep_circuit, return_statevector=True)
